@@ -76,6 +76,7 @@ type Path struct {
 	inconcl    []string
 	lastNow    *Term
 	nowMax     *Term
+	clockFixed *Term
 	nowCount   int
 	ufApps     map[string][]ufApp // for injectivity constraints
 	envFires   map[*ChanV]int
